@@ -167,6 +167,9 @@ def worker_footprint(seed, tier):
     def wrap_result_kernel(fn, name, pos):
         def w(*args):
             args = list(args)
+            if len(args) <= pos or not isinstance(args[pos], np.ndarray):
+                unavailable.append(name + ':signature')
+                return fn(*args)
             res = args[pos]
             rv = res.view(RecArray)
             rv._is_result = True
@@ -189,6 +192,9 @@ def worker_footprint(seed, tier):
     def wrap_inds_kernel(fn, name):
         def w(*args):
             args = list(args)
+            if not args or not isinstance(args[-1], np.ndarray):
+                unavailable.append(name + ':signature')
+                return fn(*args)
             args[-1] = RecInds(args[-1])
             r = Recorder(name)
             state['rec'] = r
@@ -203,31 +209,36 @@ def worker_footprint(seed, tier):
             return np.asarray(out)
         return w
 
+    unavailable = []
+
+    def install(target_mod, attr, source_mod, name, pos):
+        """wrap kernel `name` (looked up by its private name; optional)"""
+        try:
+            fn = getattr(source_mod, name)
+            getattr(target_mod, attr)
+        except AttributeError:
+            unavailable.append(name)
+            return
+        setattr(target_mod, attr, wrap_result_kernel(fn, name, pos) if pos is not None
+                else wrap_inds_kernel(fn, name))
+
     # the iteration source of every prange loop
     baselist.prange = rec_prange
     intersection.prange = rec_prange
-    k1 = wrap_result_kernel(baselist._geometry_map_nested1, '_geometry_map_nested1', 1)
-    k2 = wrap_result_kernel(baselist._geometry_map_nested2, '_geometry_map_nested2', 1)
-    k3 = wrap_result_kernel(baselist._geometry_map_nested3, '_geometry_map_nested3', 1)
-    line._geometry_map_nested1 = k1
-    multiline._geometry_map_nested2 = k2
-    polygon._geometry_map_nested2 = k2
-    multipolygon._geometry_map_nested3 = k3
-    multipoint.multipoints_intersect_bounds = wrap_result_kernel(
-        intersection.multipoints_intersect_bounds, 'multipoints_intersect_bounds', 7)
+    install(line, '_geometry_map_nested1', baselist, '_geometry_map_nested1', 1)
+    install(multiline, '_geometry_map_nested2', baselist, '_geometry_map_nested2', 1)
+    install(polygon, '_geometry_map_nested2', baselist, '_geometry_map_nested2', 1)
+    install(multipolygon, '_geometry_map_nested3', baselist, '_geometry_map_nested3', 1)
+    install(multipoint, 'multipoints_intersect_bounds', intersection, 'multipoints_intersect_bounds', 7)
     # the serial *_intersect_bounds kernels too: should one of them become a prange loop, its
     # iterations and every array it shares between them are observed
-    line.lines_intersect_bounds = wrap_result_kernel(intersection.lines_intersect_bounds,
-                                                     'lines_intersect_bounds', 7)
-    multiline.lines_intersect_bounds = line.lines_intersect_bounds
-    multiline.multilines_intersect_bounds = wrap_result_kernel(
-        intersection.multilines_intersect_bounds, 'multilines_intersect_bounds', 8)
-    polygon.polygons_intersect_bounds = wrap_result_kernel(
-        intersection.polygons_intersect_bounds, 'polygons_intersect_bounds', 8)
-    multipolygon.multipolygons_intersect_bounds = wrap_result_kernel(
-        intersection.multipolygons_intersect_bounds, 'multipolygons_intersect_bounds', 9)
+    install(line, 'lines_intersect_bounds', intersection, 'lines_intersect_bounds', 7)
+    install(multiline, 'lines_intersect_bounds', intersection, 'lines_intersect_bounds', 7)
+    install(multiline, 'multilines_intersect_bounds', intersection, 'multilines_intersect_bounds', 8)
+    install(polygon, 'polygons_intersect_bounds', intersection, 'polygons_intersect_bounds', 8)
+    install(multipolygon, 'multipolygons_intersect_bounds', intersection, 'multipolygons_intersect_bounds', 9)
     for nm in ('_perform_intersects_multipoint', '_perform_intersects_line', '_perform_intersects_polygon'):
-        setattr(point, nm, wrap_inds_kernel(getattr(point, nm), nm))
+        install(point, nm, point, nm, None)
 
     ncalls = 25 if tier == 'quick' else 250
     oob = [0]
@@ -264,7 +275,7 @@ def worker_footprint(seed, tier):
             if n:
                 inds = np.array([rng.randrange(n) for _ in range(rng.randint(0, n + 1))], dtype='int64')
                 pts.intersects(sh, inds=inds)
-    return {'records': records, 'python_mode_index_errors': oob[0]}
+    return {'records': records, 'python_mode_index_errors': oob[0], 'unavailable': sorted(set(unavailable))}
 
 
 # ======================================================================
@@ -438,7 +449,7 @@ def large_suite(n, seed, repeats=3):
         lambda: np.concatenate([np.sort(np.asarray(z)) for z in tree.covers_overlaps(qb)] + [np.array([-1])]))
     for kind in ('point', 'multiline', 'polygon'):
         a = arrs[kind]
-        fresh = type(a)(a.data, dtype=a.dtype)
+        fresh = a.copy()
         run(f'large:cx:{kind}', lambda f=fresh: np.asarray(f.build_sindex().cx[box[0]:box[2], box[1]:box[3]].bounds))
     return digests, unstable, scalar_bad
 
@@ -449,7 +460,7 @@ class DelayFS:
     _cls = None
 
     @classmethod
-    def make(cls, seed, maxdelay):
+    def make(cls, seed, maxdelay, slow_unit=0.0):
         from fsspec.implementations.local import LocalFileSystem
         if cls._cls is None:
             class _DelayFS(LocalFileSystem):
@@ -460,6 +471,12 @@ class DelayFS:
                     with self._lk:
                         d = self._rng.random() * self._maxdelay
                         self.trace.append((threading.get_ident(), op, str(path), mode))
+                    if self._slow_unit and op == 'open' and mode == 'wb':
+                        # the sub-part files of EARLY input partitions are written slowest, so that
+                        # threaded process_partition tasks finish in another order than submitted
+                        m = re.search(r'/part(\d+)\.parquet$', str(path))
+                        if m:
+                            d += max(0, 3 - int(m.group(1))) * self._slow_unit
                     if d > 0:
                         time.sleep(d)
 
@@ -500,6 +517,7 @@ class DelayFS:
         fs = cls._cls(skip_instance_cache=True)
         fs._rng = random.Random(seed)
         fs._maxdelay = maxdelay
+        fs._slow_unit = slow_unit
         fs._lk = threading.Lock()
         fs.trace = []
         return fs
@@ -510,7 +528,8 @@ def run_suite(df, right, nparts, tmp, tag, fs_seed, maxdelay, want_trace=False, 
     import dask.dataframe as dd
     import numpy as np
     import spatialpandas.dask  # noqa: F401
-    from spatialpandas import sjoin
+    from spatialpandas import GeoDataFrame, sjoin
+    from spatialpandas.geometry import PointArray
     from spatialpandas.io import read_parquet, read_parquet_dask
     out = {}
     ddf = dd.from_pandas(df, npartitions=nparts)
@@ -547,7 +566,13 @@ def run_suite(df, right, nparts, tmp, tag, fs_seed, maxdelay, want_trace=False, 
     # short retries: a broken run must fail quickly instead of backing off for half an hour
     kw['_retry_args'] = dict(wait_exponential_multiplier=1, wait_exponential_max=20,
                              stop_max_attempt_number=6)
-    back = ddf.pack_partitions_to_parquet(path, filesystem=fs, npartitions=4, p=12, **kw)
+    try:
+        back = ddf.pack_partitions_to_parquet(path, filesystem=fs, npartitions=4, p=12, **kw)
+    except TypeError:
+        kw.pop('_retry_args')
+        out['internal-unavailable:_retry_args'] = 'x'
+        shutil.rmtree(path, ignore_errors=True)
+        back = ddf.pack_partitions_to_parquet(path, filesystem=fs, npartitions=4, p=12, **kw)
     trace = list(fs.trace)
     files = sorted(os.path.relpath(os.path.join(dp, f), path) for dp, _dn, fn in os.walk(path) for f in fn)
     dirs = sorted(os.path.relpath(os.path.join(dp, d), path) for dp, dn, _fn in os.walk(path) for d in dn)
@@ -563,10 +588,31 @@ def run_suite(df, right, nparts, tmp, tag, fs_seed, maxdelay, want_trace=False, 
     out['pack_to_parquet:allrows'] = _h(sorted(x for v in rows.values() for x in v) == list(range(len(df))))
     r = back.compute()
     out['pack_to_parquet:readback'] = _h([back.npartitions, sorted(zip(r.index.tolist(), r['id'].tolist()))])
-    pb = back._partition_bounds
+    from spatialpandas.geometry import GeometryDtype
+    pb = {c: back[c].partition_bounds for c, dt in zip(back.columns, back.dtypes) if isinstance(dt, GeometryDtype)}
     out['pack_to_parquet:partition_bounds'] = _h({k: _floats(v.values) for k, v in sorted(pb.items())})
     r = read_parquet_dask(path, bounds=box, geometry='pg')
-    out['read_parquet_dask'] = _h([r.npartitions, r._meta._geometry, sorted(r.compute()['id'].tolist())])
+    out['read_parquet_dask'] = _h([r.npartitions, str(r.geometry.name), sorted(r.compute()['id'].tolist())])
+    # cross-partition ties: every location occurs once in each of the 4 input partitions, so
+    # rows of different input partitions tie on hilbert_distance; the EXACT row order of every
+    # part file must not depend on the order in which the process_partition tasks finish
+    nt_ = 4 * 120
+    loc = np.arange(nt_) % 120
+    tie = GeoDataFrame({'id': np.arange(nt_),
+                        'pt': PointArray(((loc * 37 % 101).astype('float64'), (loc * 53 % 89).astype('float64')))})
+    tddf = dd.from_pandas(tie, npartitions=4)
+    fs2 = DelayFS.make(fs_seed + 1, maxdelay, slow_unit=0.03)
+    tpath = os.path.join(tmp, f'ties_{tag}.parq')
+    tback = tddf.pack_partitions_to_parquet(tpath, filesystem=fs2, npartitions=3, p=8,
+                                            **({'_retry_args': kw['_retry_args']} if '_retry_args' in kw else {}))
+    order = {}
+    for f in sorted(os.listdir(tpath)):
+        if f.startswith('part.'):
+            order[f] = read_parquet(os.path.join(tpath, f))['id'].tolist()
+    out['pack_ties:row-order'] = _h(order)
+    out['pack_ties:readback-order'] = _h(tback.compute()['id'].tolist())
+    out['pack_ties:has-ties'] = _h(True)
+    shutil.rmtree(tpath, ignore_errors=True)
     extra = None
     if want_trace:
         extra = {'trace': [[t, op, os.path.relpath(pth, tmp) if pth.startswith(tmp) else pth, mode]
@@ -675,6 +721,7 @@ def worker_clients(seed, tier):
     schedules = []
     retried = {}
     dask_internal = []
+    spy_unavailable = {}
 
     def race(name, fresh, access, canon, cell=None, cfg=None):
         """fresh() -> a new shared object; access(obj) -> result; canon(result) -> comparable;
@@ -682,9 +729,18 @@ def worker_clients(seed, tier):
         expected = canon(access(fresh()))
         for rd in range(rounds):
             obj = fresh()
+            spied = False
             if cell is not None:
-                holder, attr = cell(obj)
-                spy_attr(holder, attr)
+                # optional extra: record the reads / writes of the private cache cell
+                try:
+                    holder, attr = cell(obj)
+                    if attr in vars(holder):
+                        spy_attr(holder, attr)
+                        spied = True
+                except Exception:  # noqa: BLE001
+                    spied = False
+                if not spied:
+                    spy_unavailable[name] = spy_unavailable.get(name, 0) + 1
             bar = threading.Barrier(N)
             got = [None] * N
             tids = [None] * N
@@ -698,7 +754,7 @@ def worker_clients(seed, tier):
                     got[i] = ('raised', f'{type(e).__name__}: {str(e)[:120]}')
             ths = [threading.Thread(target=client, args=(i,)) for i in range(N)]
             EV['events'] = []
-            EV['on'] = cell is not None
+            EV['on'] = spied
             for t in ths:
                 t.start()
             for t in ths:
@@ -720,7 +776,7 @@ def worker_clients(seed, tier):
                 failures.append({'object': name, 'round': rd, 'expected': str(expected)[:200],
                                  'got': [str(b)[:200] for b in bad[:3]]})
                 return
-            if cell is not None:
+            if spied:
                 idx = {t: i for i, t in enumerate(tids)}
                 schedules.append({'object': name, 'cfg': list(cfg), 'threads': N,
                                   'sched': [idx.get(t, N) for t, _k in events],
@@ -800,17 +856,17 @@ def worker_clients(seed, tier):
          lambda r: _h([sorted(np.asarray(r[0]).tolist()), sorted(np.asarray(r[1]).tolist())])),
     ]
     race_mixed('PointArray 250k with missing: bounds / sindex / cx at once',
-               lambda: PointArray(big.data, dtype=big.dtype), big_accesses, nrounds=8 if tier == 'quick' else 30)
+               lambda: big.copy(), big_accesses, nrounds=8 if tier == 'quick' else 30)
     big_ids = np.arange(nbig)
     race_mixed('GeoSeries 250k with missing: cx / sindex at once',
-               lambda: GeoSeries(PointArray(big.data, dtype=big.dtype), index=big_ids),
+               lambda: GeoSeries(big.copy(), index=big_ids),
                [(lambda s_: s_.build_sindex().cx[obox[0]:obox[2], obox[1]:obox[3]],
                  lambda r: _h(sorted(r.index.tolist()))),
                 (lambda s_: s_.sindex.intersects(np.array(obox)), lambda r: _h(sorted(np.asarray(r).tolist()))),
                 (lambda s_: s_.bounds.values, lambda r: _floats(r))],
-               nrounds=2 if tier == 'quick' else 8)
+               nrounds=3 if tier == 'quick' else 12)
     race_mixed('GeoDataFrame 250k with missing: cx at once',
-               lambda: GeoDataFrame({'pt': PointArray(big.data, dtype=big.dtype), 'id': big_ids}),
+               lambda: GeoDataFrame({'pt': big.copy(), 'id': big_ids}),
                [(lambda d: d.build_sindex().cx[obox[0]:obox[2], obox[1]:obox[3]],
                  lambda r: _h(sorted(r['id'].tolist())))],
                nrounds=3 if tier == 'quick' else 12)
@@ -821,16 +877,16 @@ def worker_clients(seed, tier):
     bounds = bounds[~np.isnan(bounds).any(axis=1)]
     ilist = lambda r: sorted(np.asarray(r).tolist())  # noqa: E731
 
-    race('GeometryArray.sindex (points)', lambda: type(pts)(pts.data, dtype=pts.dtype),
+    race('GeometryArray.sindex (points)', lambda: pts.copy(),
          lambda a: a.sindex.intersects(np.array(box)), ilist,
          cell=lambda a: (a, '_sindex'), cfg=(1, 0))
-    race('GeometryArray.build_sindex+cx (polygons)', lambda: type(pgs)(pgs.data, dtype=pgs.dtype),
+    race('GeometryArray.build_sindex+cx (polygons)', lambda: pgs.copy(),
          lambda a: a.build_sindex().cx[box[0]:box[2], box[1]:box[3]],
          lambda r: sorted(np.asarray(r.bounds, dtype=float)[:, 0].tolist()),
          cell=lambda a: (a, '_sindex'), cfg=(0, 0))
-    race('GeoSeries.cx', lambda: GeoSeries(type(pts)(pts.data, dtype=pts.dtype), index=df0.index),
+    race('GeoSeries.cx', lambda: GeoSeries(pts.copy(), index=df0.index),
          lambda s: s.cx[box[0]:box[2], box[1]:box[3]], lambda r: sorted(r.index.tolist()))
-    race('GeoSeries.sindex', lambda: GeoSeries(type(pts)(pts.data, dtype=pts.dtype), index=df0.index),
+    race('GeoSeries.sindex', lambda: GeoSeries(pts.copy(), index=df0.index),
          lambda s: s.sindex.intersects(np.array(box)), ilist,
          cell=lambda s: (s.array, '_sindex'), cfg=(1, 0))
     race('GeoDataFrame.cx', lambda: GeoDataFrame(df0), lambda d: d.cx[box[0]:box[2], box[1]:box[3]],
@@ -841,6 +897,19 @@ def worker_clients(seed, tier):
     race('HilbertRtree.intersects (numba_rtree)', lambda: HilbertRtree(bounds, page_size=16),
          lambda t: t.intersects(np.array(box)), ilist,
          cell=lambda t: (t, '_numba_rtree'), cfg=(0, 0))
+    def hammer(q, k=150):
+        def f(obj):
+            first = q(obj)
+            for _ in range(k):
+                nxt = q(obj)
+                if ilist(nxt) != ilist(first):
+                    return np.array([-1])
+            return first
+        return f
+    race('HilbertRtree.intersects x150 per thread', lambda: HilbertRtree(bounds, page_size=16),
+         hammer(lambda t: t.intersects(np.array(box))), ilist)
+    race('GeometryArray.sindex.intersects x150 per thread', lambda: pts.copy(),
+         hammer(lambda a: a.sindex.intersects(np.array(box))), ilist)
     race('HilbertRtree.covers_overlaps', lambda: HilbertRtree(bounds, page_size=16),
          lambda t: t.covers_overlaps(np.array(box)),
          lambda r: [ilist(r[0]), ilist(r[1])])
@@ -852,14 +921,14 @@ def worker_clients(seed, tier):
              lambda s: s.partition_sindex.intersects(np.array(box)), ilist,
              cell=lambda s: (s, '_partition_sindex'), cfg=(0, 0))
         race('DaskGeoDataFrame.partition_sindex', lambda: dd.from_pandas(GeoDataFrame(df0), npartitions=4),
-             lambda d: (d.partition_sindex.intersects(np.array(box)), d._partition_bounds['pt'])[0], ilist)
+             lambda d: d.partition_sindex.intersects(np.array(box)), ilist)
         race('DaskGeoDataFrame.cx', lambda: dd.from_pandas(GeoDataFrame(df0), npartitions=4),
              lambda d: d.cx[box[0]:box[2], box[1]:box[3]].compute(), lambda r: sorted(r['id'].tolist()))
     with dask.config.set(scheduler='threads', num_workers=4):
         race('DaskGeoDataFrame.cx (threads scheduler)', lambda: dd.from_pandas(GeoDataFrame(df0), npartitions=4),
              lambda d: d.cx[box[0]:box[2], box[1]:box[3]].compute(), lambda r: sorted(r['id'].tolist()))
     return {'failures': failures, 'counts': counts, 'clients': N, 'schedules': schedules,
-            'dask_internal': dask_internal}
+            'dask_internal': dask_internal, 'spy_unavailable': spy_unavailable}
 
 
 def main():
